@@ -279,10 +279,6 @@ Proof.
   destruct (ri r =? 0); intros H; inversion H; reflexivity.
 Qed.
 
-(* the store AddLink leaves *)
-Definition after_add (cfg : config) (s : fstate) (b : block) : list entry :=
-  if stores_incoming cfg s b then put (mkEntry b false) (store (db s)) else store (db s).
-
 (* fk_step with its early exits folded into the names of the specification *)
 Lemma fk_step_eq cfg s b :
   fk_step cfg s b =
